@@ -42,6 +42,31 @@ class OtherExc(Exception):
     pass
 
 
+class _Raising(dict):
+    """A mapping whose iteration fails with the given built-in error."""
+
+    def __init__(self, excname):
+        super().__init__(k='v')
+        self._exc = {'RuntimeError': RuntimeError, 'KeyError': KeyError,
+                     'OSError': OSError,
+                     'AttributeError': AttributeError}[excname]
+
+    def items(self):
+        raise self._exc('no iteration')
+
+    def __iter__(self):
+        raise self._exc('no iteration')
+
+    def keys(self):
+        raise self._exc('no iteration')
+
+    def __repr__(self):
+        return '<raising mapping>'
+
+    def __deepcopy__(self, memo):
+        return self
+
+
 def _leaf(n):
     return common.CUR['ctx'].zvar('leaf.' + n)
 
@@ -286,12 +311,32 @@ def run_debug_equiv(ctx, rulekind):
                      'obj': object if ctx.bool('weird') else 'plain'}
             target = {'a': {'password': 'pw', 'list': [1, {'token': 't'}]},
                       'set': {1, 2}, ('t', 1): 'tuple-key'}
+            # values the dump cannot get through at all: whatever goes wrong
+            # inside it stays inside it
+            hostile = str(ctx.choice('hostile', [
+                'plain', 'cyclic', 'deep', 'mapping-RuntimeError',
+                'mapping-KeyError', 'mapping-OSError',
+                'mapping-AttributeError']))
+            if hostile == 'cyclic':
+                target['back'] = target
+                creds['me'] = [creds]
+            elif hostile == 'deep':
+                deep = cur = {}
+                for _ in range(5000):
+                    cur['n'] = {}
+                    cur = cur['n']
+                target['deep'] = deep
+            elif hostile.startswith('mapping-'):
+                target['m'] = _Raising(hostile[8:])
             c, t = copy.copy(creds), copy.copy(target)
-            snap = (repr(sorted(c.items(), key=repr)),
-                    repr(sorted(t.items(), key=repr)))
+            def shot(d):
+                # (the 5000-level value has no printable form: its type)
+                return repr(sorted(((k, v if k != 'deep' else type(v))
+                                    for k, v in d.items()),
+                                   key=lambda kv: repr(kv[0])))
+            snap = (shot(c), shot(t))
             s = ctx.summarize(lambda: bool(enf.enforce(arg, t, c)))
-            after = (repr(sorted(c.items(), key=repr)),
-                     repr(sorted(t.items(), key=repr)))
+            after = (shot(c), shot(t))
             results[debug] = (s, snap == after, after)
         finally:
             _setup_logging(False)
